@@ -14,10 +14,12 @@ package main
 
 import (
 	"bytes"
+	"encoding/json"
 	"flag"
 	"fmt"
 	"os"
 	"path/filepath"
+	"sort"
 	"strings"
 
 	"github.com/moov-io/ach"
@@ -30,12 +32,16 @@ import (
 
 func main() {
 	if len(os.Args) < 2 {
-		fmt.Fprintln(os.Stderr, "usage: c20enr corr ...")
+		fmt.Fprintln(os.Stderr, "usage: c20enr corr|oracle|replay ...")
 		os.Exit(2)
 	}
 	switch os.Args[1] {
 	case "corr":
 		corr(os.Args[2:])
+	case "oracle":
+		oracle(os.Args[2:])
+	case "replay":
+		replay(os.Args[2:])
 	default:
 		fmt.Fprintln(os.Stderr, "unknown mode")
 		os.Exit(2)
@@ -547,4 +553,269 @@ func jsonMap(m map[string]int) string {
 	}
 	b.WriteString("}")
 	return b.String()
+}
+
+// ---------------------------------------------------------------- oracle
+
+// The property evaluated directly on the real code, for well-formed payment strings of both
+// ENR branches (consumer / business) and DNE: with its flag on, no word (>= 3 bytes) of the
+// name and its two components, no account / identification / SSN value with >= 5
+// significant bytes may occur in the printed cell - unless it also occurs in the cell of the
+// same payment string with the protected component replaced by a placeholder (then it is
+// shown by another field).
+
+type priCase struct {
+	Class string `json:"class"` // pri-enr | pri-dne
+	Value string `json:"value"` // the PaymentRelatedInformation text
+}
+
+type priFailure struct {
+	Kind   string  `json:"kind"`
+	Key    string  `json:"key"`
+	What   string  `json:"what"`
+	Flags  [2]bool `json:"flags"` // names, accounts
+	Case   priCase `json:"case"`
+	Secret string  `json:"secret"`
+	Cell   string  `json:"cell"`
+}
+
+type cellPrinter struct {
+	enr, dne *ach.File
+}
+
+func newCellPrinter(r *rng.R) *cellPrinter {
+	mk := func(sec string) *ach.File {
+		for {
+			f := gen.FileOfSEC(r.Fork(), sec, gen.Opts{Addenda: true, MinBatches: 1, MaxBatches: 1, MaxEntries: 1})
+			if len(addenda05s(f)) > 0 {
+				return f
+			}
+		}
+	}
+	return &cellPrinter{enr: mk("ENR"), dne: mk("DNE")}
+}
+
+// cell prints the file with the payment string on its first Addenda05 and cuts the cell out.
+func (cp *cellPrinter) cell(class, pri string, names, accts bool) (string, bool) {
+	f := cp.enr
+	if class == "pri-dne" {
+		f = cp.dne
+	}
+	for _, a := range addenda05s(f) {
+		a.PaymentRelatedInformation = pri
+	}
+	out, p := describeWith(f, names, accts)
+	if p != nil {
+		return fmt.Sprint(p), false
+	}
+	cs := cells(out)
+	if len(cs) == 0 {
+		return "no cell", false
+	}
+	return cs[0], true
+}
+
+func sigCount(s string) int {
+	n := 0
+	for i := 0; i < len(s); i++ {
+		if s[i] != ' ' && s[i] != '*' {
+			n++
+		}
+	}
+	return n
+}
+
+func nameWords(parts ...string) []string {
+	seen := map[string]bool{}
+	var out []string
+	for _, p := range parts {
+		for _, w := range strings.Fields(p) {
+			if len(w) >= 3 && !seen[w] {
+				seen[w] = true
+				out = append(out, w)
+			}
+		}
+	}
+	return out
+}
+
+func withParts(parts []string, repl map[int]string) string {
+	cp := append([]string{}, parts...)
+	for i, v := range repl {
+		cp[i] = v
+	}
+	return strings.Join(cp, "*") + `\`
+}
+
+func checkPRI(cp *cellPrinter, c priCase) (fails []priFailure, secrets int) {
+	parts := strings.Split(strings.TrimSuffix(c.Value, `\`), "*")
+	type secret struct {
+		s     string
+		key   string
+		flags [][2]bool
+		ref   map[int]string
+	}
+	var ss []secret
+	nameFlags := [][2]bool{{true, false}, {true, true}}
+	acctFlags := [][2]bool{{false, true}, {true, true}}
+	switch c.Class {
+	case "pri-enr":
+		if !parsesENR(c.Value) {
+			return nil, 0
+		}
+		name := parts[6] + " " + parts[5]
+		if strings.EqualFold(parts[7], "B") {
+			name = parts[5] + parts[6]
+		}
+		for _, w := range nameWords(parts[5], parts[6], name) {
+			ss = append(ss, secret{w, "mask:enr:name-visible", nameFlags, map[int]string{5: "ww", 6: "vv"}})
+		}
+		if v := strings.TrimSpace(parts[3]); sigCount(v) >= 5 {
+			ss = append(ss, secret{v, "mask:enr:number-visible", acctFlags, map[int]string{3: "xx"}})
+		}
+		if v := strings.TrimSpace(parts[4]); sigCount(v) >= 5 {
+			ss = append(ss, secret{v, "mask:enr:number-visible", acctFlags, map[int]string{4: "xx"}})
+		}
+	case "pri-dne":
+		if !parsesDNE(c.Value) {
+			return nil, 0
+		}
+		if v := strings.TrimSpace(parts[3]); sigCount(v) >= 5 {
+			ss = append(ss, secret{v, "mask:dne:ssn-visible", [][2]bool{{true, false}, {false, true}, {true, true}}, map[int]string{3: "xx"}})
+		}
+	}
+	for _, x := range ss {
+		for _, fl := range x.flags {
+			cell, ok := cp.cell(c.Class, c.Value, fl[0], fl[1])
+			if !ok {
+				fails = append(fails, priFailure{Kind: "fail", Key: "describe:panic", What: cell, Flags: fl, Case: c})
+				continue
+			}
+			if !strings.Contains(cell, x.s) {
+				continue
+			}
+			ref, _ := cp.cell(c.Class, withParts(parts, x.ref), fl[0], fl[1])
+			if strings.Contains(ref, x.s) {
+				continue // shown by another field
+			}
+			fails = append(fails, priFailure{Kind: "fail", Key: x.key, What: "protected component of the payment information visible in the describe cell with its mask flag on", Flags: fl, Case: c, Secret: x.s, Cell: cell})
+		}
+	}
+	return fails, len(ss)
+}
+
+func oracle(args []string) {
+	fs := flag.NewFlagSet("oracle", flag.ExitOnError)
+	out := fs.String("out", "", "output directory")
+	n := fs.Int("n", 1500, "generated payment strings per SEC code")
+	corpus := fs.String("corpus", "", "corpus directory (cases run first)")
+	fs.Parse(args)
+	res := hx.Create(filepath.Join(*out, "oracle.jsonl"))
+	enc := func(v any) {
+		b, _ := json.Marshal(v)
+		res.Printf("%s\n", b)
+	}
+	r := rng.FromEnv(2022)
+	cp := newCellPrinter(r)
+	evals, distinct := 0, 0
+	dist := map[string]int{}
+	seen := map[string]bool{}
+	var samples []priCase
+	run := func(c priCase) {
+		evals++
+		fails, ns := checkPRI(cp, c)
+		kind := c.Class + ":no-secret-or-malformed"
+		if ns > 0 {
+			kind = c.Class
+			if c.Class == "pri-enr" {
+				parts := strings.Split(strings.TrimSuffix(c.Value, `\`), "*")
+				if strings.EqualFold(parts[7], "B") {
+					kind += ":business"
+				} else {
+					kind += ":consumer"
+				}
+			}
+			if !seen[c.Class+c.Value] {
+				seen[c.Class+c.Value] = true
+				distinct++
+			}
+		}
+		dist[kind]++
+		for _, f := range fails {
+			enc(f)
+		}
+		if len(samples) < 5 && evals%211 == 1 {
+			samples = append(samples, c)
+		}
+	}
+	for _, c := range corpusPRI(*corpus) {
+		run(c)
+	}
+	for _, s := range sweepENR() {
+		run(priCase{"pri-enr", s})
+	}
+	for _, s := range sweepDNE() {
+		run(priCase{"pri-dne", s})
+	}
+	p := picker{r: r}
+	for i := 0; i < *n; i++ {
+		run(priCase{"pri-enr", p.enr()})
+		run(priCase{"pri-dne", p.dne()})
+	}
+	enc(map[string]any{
+		"kind": "summary", "evaluations": evals, "distinct_nontrivial": distinct,
+		"rule":         "one ENR / DNE payment string per case on a generated valid file, describe.File under the flag sets that protect it; secrets: words (>= 3 bytes) of surname, first name and parsed name, trimmed account / identification / SSN with >= 5 significant bytes; non-trivial = well-formed with at least one secret; distinct by (class, string)",
+		"distribution": dist, "samples": samples,
+	})
+	res.Close()
+}
+
+func corpusPRI(dir string) []priCase {
+	var out []priCase
+	if dir == "" {
+		return out
+	}
+	names, _ := filepath.Glob(filepath.Join(dir, "*.json"))
+	sort.Strings(names)
+	for _, p := range names {
+		b, err := os.ReadFile(p)
+		if err != nil {
+			continue
+		}
+		var rp struct {
+			Input priCase `json:"input"`
+		}
+		if json.Unmarshal(b, &rp) == nil && strings.HasPrefix(rp.Input.Class, "pri-") {
+			out = append(out, rp.Input)
+		}
+	}
+	return out
+}
+
+func replay(args []string) {
+	if len(args) < 1 {
+		fmt.Fprintln(os.Stderr, "usage: c20enr replay <file>")
+		os.Exit(2)
+	}
+	b, err := os.ReadFile(args[0])
+	if err != nil {
+		fmt.Fprintln(os.Stderr, err)
+		os.Exit(2)
+	}
+	var rp struct {
+		Input priCase `json:"input"`
+	}
+	if err := json.Unmarshal(b, &rp); err != nil || !strings.HasPrefix(rp.Input.Class, "pri-") {
+		fmt.Println("replay file carries no payment-information input: nothing to run")
+		os.Exit(0)
+	}
+	fails, _ := checkPRI(newCellPrinter(rng.FromEnv(2022)), rp.Input)
+	for _, f := range fails {
+		j, _ := json.Marshal(f)
+		fmt.Println(string(j))
+	}
+	if len(fails) > 0 {
+		os.Exit(1)
+	}
+	fmt.Println("no failure on this input")
 }
